@@ -856,7 +856,8 @@ def run(ctx):
                     terms.append("stp %s %s %s %s %s %s" % (pt, f2, q(F(1, 10 ** 6) * sc), qmat(lp["V_in"]), nat(lp["node"]), q(lp["epsilon"])))
                     meta.append(("stp", i, {"lp": lp}))
 
-    vals = ctx.coq(PRE, terms, shard=10 if tier == "quick" else 30)
+    # thorough: small shards and a long timeout, so that a loaded machine cannot turn a slow shard into a coqc timeout
+    vals = ctx.coq(PRE, terms, shard=10 if tier == "quick" else 12, timeout=900 if tier == "quick" else 2400)
     counts = {"ev": 0, "hi": 0, "lc": 0, "mc": 0, "stp": 0}
     cert_ok = eval_defect = hist_defect = hist_equal = hist_theorem_cases = hist_total = hist_drift = 0
     for (kind, i, extra), v in zip(meta, vals):
